@@ -333,6 +333,176 @@ def table_units(which):
     return unit
 
 
+class UL:
+    """ghost micro-op list: a concatenation of opaque parts ("E" = the register form's list, ("L", i) = micro-ops of row i of
+    what get_load_throughput returned, ("S", i) likewise for stores); identity of parts is what the frame cares about"""
+
+    def __init__(self, parts):
+        self.parts = tuple(parts)
+
+    def sym_binop(self, ex, op, other, reflected):
+        import ast as _ast
+        if not isinstance(op, _ast.Add):
+            raise Unsupported("micro-op list operator")
+        o = other.parts if isinstance(other, UL) else () if isinstance(other, list) and not other else None
+        if o is None:
+            raise Unsupported("micro-op list + " + type(other).__name__)
+        return UL(o + self.parts if reflected else self.parts + o)
+
+    def sym_chain(self, ex, its):
+        out = ()
+        for i in its:
+            if isinstance(i, UL):
+                out += i.parts
+            elif isinstance(i, list) and not i:
+                pass
+            else:
+                raise Unsupported("chain of micro-op list with " + type(i).__name__)
+        return UL(out)
+
+    def sym_list(self, ex):
+        return UL(self.parts)
+
+    def sym_method(self, ex, name, args, kw):
+        if name == "copy":
+            return UL(self.parts)
+        raise Unsupported("micro-op list." + name)
+
+
+def selection_unit(isa):
+    """P: ArchSemantics.assign_tp_lt, composition branch (real code), for load/store tables of ANY length: among the rows that
+    get_load_throughput returned (contract: C08/get_load_throughput) the micro-ops of the FIRST row whose destination type is
+    given and matches the data register are used, else those of the first row; for stores the first row returned for
+    (memory, data register type); the resulting port pressure is register form + multiplier * load row + multiplier * store
+    row and the micro-op list is their concatenation in that order."""
+    def unit(res):
+        ex = Engine([REPO + "/" + f for f in FILES])
+        ex.no_init |= {"ParserX86ATT", "ParserAArch64", "MachineModel"}
+        NL, NS = z3.Ints("n_load_rows n_store_rows")
+        typed = z3.Function("row_has_dst", I_, B_)
+        ok = z3.Function("row_dst_type_ok", I_, B_)
+        appL = z3.Function("avg_load_row", I_, I_, R_)
+        appS = z3.Function("avg_store_row", I_, I_, R_)
+        appE = [z3.Real(f"avg_entry_{j}") for j in range(len(PORTS))]
+        rows_sch = Schema("lrow", ["MemoryOperand"], {"dst": ("custom", None), "src": ("custom", None)})
+        rows_sch.fn["dst"] = lambda ex_, ref: OptStr(typed(ref.t), ref.t)
+        rows_sch.fn["src"] = lambda ex_, ref: OptStr(typed(ref.t), ref.t)
+        rt = "gpr" if isa == "x86" else "x"
+        for role in ("load", "store", "rmw", "writeback-only" if isa != "x86" else None):
+            if role is None:
+                continue
+            for mult in (False, True):
+                R = {n: z3.Real(n) for n in ("ll", "tp", "lat", "ml", "ms")}
+                pre = [v >= 0 for v in R.values()] + [NL >= 1, NS >= 1]
+                sn = lambda k: SNum(R[k], False)
+
+                def run():
+                    new = lambda c, **kw: ex.instantiate(c, kw=kw)
+                    reg = (lambda n: new("RegisterOperand", name=n)) if isa == "x86" else (lambda n: new("RegisterOperand", prefix="x", name=n))
+                    data = {"isa": isa, "ports": list(PORTS), "load_latency": {rt: sn("ll")}}
+                    if mult:
+                        data["load_throughput_multiplier"] = {rt: sn("ml")}
+                        data["store_throughput_multiplier"] = {rt: sn("ms")}
+                    mm = SObj("MachineModel", _data=data)
+                    entry_uops = UL(("E",))
+                    entry = new("InstructionForm", mnemonic="ADD", operands=[reg("gpr") if isa == "x86" else new("RegisterOperand", prefix="x")] * 2,
+                                throughput=sn("tp"), latency=sn("lat"), port_pressure=entry_uops)
+                    parser = SObj("ParserX86ATT" if isa == "x86" else "ParserAArch64")
+                    sem = SObj("ArchSemantics", _machine_model=mm, _isa=isa, _parser=parser)
+                    wb = role == "writeback-only"
+                    mem = new("MemoryOperand", offset=new("ImmediateOperand", value=8), base=reg("rbx" if isa == "x86" else "2"), **({"post_indexed": {"value": 8}} if wb else {}))
+                    data_reg = reg("rax" if isa == "x86" else "1")
+                    iform = new("InstructionForm", mnemonic="addq" if isa == "x86" else "add.s", operands=[data_reg, mem], line="add ...", line_number=1)
+                    so = {"load": {"source": [mem], "destination": [data_reg], "src_dst": []},
+                          "store": {"source": [data_reg], "destination": [mem], "src_dst": []},
+                          "rmw": {"source": [data_reg], "destination": [], "src_dst": [mem]},
+                          "writeback-only": {"source": [data_reg], "destination": [], "src_dst": [mem]}}[role]
+                    iform.fields["_semantic_operands"] = so
+                    iform.fields["_flags"] = {"load": [FL["HAS_LD"]], "store": [FL["HAS_ST"]], "rmw": [FL["HAS_LD"], FL["HAS_ST"]], "writeback-only": [FL["HAS_LD"], FL["HAS_ST"]]}[role]
+                    asked = []
+
+                    def get_instruction(ex_, so_, a, kw):
+                        name, operands = a
+                        if any(isinstance(o, SObj) and o.cls == "MemoryOperand" for o in operands):
+                            return None
+                        return entry
+
+                    def glt(ex_, so_, a, kw):
+                        asked.append(("load", a[0]))
+                        return SymSeq(NL, lambda i: (SRef(i, rows_sch), UL((("L", i),))))
+
+                    def gst(ex_, so_, a, kw):
+                        asked.append(("store", a[0], a[1] if len(a) > 1 else None))
+                        return SymSeq(NS, lambda i: (SRef(i, rows_sch), UL((("S", i),))))
+
+                    def app(ex_, so_, a, kw):
+                        u = a[0]
+                        if isinstance(u, list) and not u:
+                            return [Fraction(0)] * len(PORTS)
+                        if isinstance(u, UL) and len(u.parts) == 1:
+                            pt = u.parts[0]
+                            if pt == "E":
+                                return [SNum(x, False) for x in appE]
+                            f = appL if pt[0] == "L" else appS
+                            return [SNum(f(pt[1], j), False) for j in range(len(PORTS))]
+                        raise Unsupported("average_port_pressure of a composite list")
+
+                    def chk(ex_, so_, a, kw):
+                        r = a[1]
+                        if isinstance(r, OptStr):
+                            return SBool(ok(r.code))
+                        raise Unsupported("_check_operands on " + type(r).__name__)
+
+                    ex.abstract.update(get_instruction=get_instruction, get_load_throughput=glt, get_store_throughput=gst, average_port_pressure=app,
+                                       _check_operands=chk)
+                    ex.abstract["_reg_of_type"] = lambda ex_, so_, a, kw: a[0] if isinstance(a[0], OptStr) else ("dummy", a[0])
+                    ex.call_method("ArchSemantics", "assign_tp_lt", sem, [iform])
+                    ex.extra.update(iform=iform, asked=asked, mem=mem)
+                    return iform
+
+                paths = ex.explore(run, pre)
+
+                def post(v, p, role=role, mult=mult):
+                    f = v.fields
+                    pu = f.get("_port_uops")
+                    if not isinstance(pu, UL):
+                        return False
+                    want_kinds = ["E"] + (["L"] if role != "store" else []) + (["S"] if role in ("store", "rmw") else [])
+                    if [x if x == "E" else x[0] for x in pu.parts] != want_kinds:
+                        return False
+                    g = []
+                    j = z3.Int("j")
+                    lp = [z3.RealVal(0)] * len(PORTS)
+                    sp = [z3.RealVal(0)] * len(PORTS)
+                    if role != "store":
+                        c = [x for x in pu.parts if x != "E" and x[0] == "L"][0][1]
+                        c = c if z3.is_expr(c) else z3.IntVal(c)
+                        sel = lambda i: z3.And(typed(i), ok(i))
+                        anysel = z3.Exists([j], z3.And(0 <= j, j < NL, sel(j)))
+                        g.append(z3.And(0 <= c, c < NL, z3.If(anysel, z3.And(sel(c), z3.ForAll([j], z3.Implies(z3.And(0 <= j, j < c), z3.Not(sel(j))))), c == 0)))
+                        lp = [appL(c, k) * (R["ml"] if mult else 1) for k in range(len(PORTS))]
+                    if role in ("store", "rmw"):
+                        c = [x for x in pu.parts if x != "E" and x[0] == "S"][0][1]
+                        c = c if z3.is_expr(c) else z3.IntVal(c)
+                        g.append(c == 0)
+                        sp = [appS(0, k) * (R["ms"] if mult else 1) for k in range(len(PORTS))]
+                    pp = f["_port_pressure"]
+                    if not (isinstance(pp, list) and len(pp) == len(PORTS)):
+                        return False
+                    g += [real_term(pp[k]) == appE[k] + lp[k] + sp[k] for k in range(len(PORTS))]
+                    # what the tables were asked for: the instruction's memory operand (and a register of the data register's type)
+                    asked = p.extra["asked"]
+                    g.append(z3.BoolVal(all(a[1] is p.extra["mem"] for a in asked) and [a[0] for a in asked] == (["load"] if role == "load" else ["store"] if role == "store" else ["load", "store"])))
+                    has_st = FL["HAS_ST"] in f["_flags"]
+                    g.append(z3.BoolVal(has_st == (role in ("store", "rmw"))))
+                    return z3.And(g)
+
+                res.add_paths(paths, post, kind=f"{role}/mult={int(mult)}")
+        return res
+
+    return unit
+
+
 def units(tier):
     return [
         Unit("C08/assign_tp_lt/composition/x86", compose_unit("x86"), "Pb",
@@ -340,6 +510,8 @@ def units(tier):
               (HW, "MachineModel._match_mem_entries"), (HW, "MachineModel.average_port_pressure"), (ISA, "ISASemantics.substitute_mem_address")], timeout=1500),
         Unit("C08/assign_tp_lt/composition/aarch64", compose_unit("aarch64"), "Pb",
              [(AS, "ArchSemantics.assign_tp_lt"), (HW, "MachineModel.get_load_throughput"), (HW, "MachineModel.get_store_throughput")], timeout=1500),
+        Unit("C08/assign_tp_lt/row-selection(any number of rows)/x86", selection_unit("x86"), "P", [(AS, "ArchSemantics.assign_tp_lt")]),
+        Unit("C08/assign_tp_lt/row-selection(any number of rows)/aarch64", selection_unit("aarch64"), "P", [(AS, "ArchSemantics.assign_tp_lt")]),
         Unit("C08/get_load_throughput(any number of rows)", table_units("load"), "P", [(HW, "MachineModel.get_load_throughput"), (HW, "MachineModel._match_mem_entries")]),
         Unit("C08/get_store_throughput(any number of rows)", table_units("store"), "P", [(HW, "MachineModel.get_store_throughput"), (HW, "MachineModel._match_mem_entries")]),
         bounded_unit("C08/composition-vs-yaml-recomputation", "c08_compose", [(AS, "ArchSemantics.assign_tp_lt"), (AS, "ArchSemantics.add_semantics"), (HW, "MachineModel.__init__")], timeout=2400),
